@@ -153,21 +153,23 @@ def call_numpy(it, name, mod, fn, args, kwargs, node, fr):
         p.descending = False
         return p
     if fn == "arange":
-        if len(args) == 1 and not kwargs:
-            n = args[0]
-            r = Val(call("arange", to_term(n)))
-            if getattr(n, "shape_of", None) is not None:
-                r.space = r.pos_of = getattr(n.shape_of, "space", None)
-            r.arange_n = n
-            try:
-                k = pyval(n)
-                if isinstance(k, int) and 0 <= k <= 64:
-                    return Arr([const(i) for i in range(k)], 1)
-            except NotConst:
-                pass
-            return r
-        r = Val(call("arange", *[to_term(a) for a in args]))
-        r.arange_args = args
+        # an index vector: element j = start + j*step, j the generic index of an index space identified by its length
+        if len(args) == 1:
+            start, stop, step = K(0), args[0], K(1)
+        else:
+            start, stop = args[0], args[1]
+            step = args[2] if len(args) > 2 else kwargs.get("step", K(1))
+        st, sp, se = to_term(start), to_term(stop), to_term(step)
+        length = mk("ceil", mk("div", mk("sub", sp, st), se))
+        it.record("arange", "numpy.arange", [start, stop, step], {}, node, {"length": length})
+        idx = it.index_symbol(length)
+        r = Val(mk("add", st, mk("mul", idx, se)))
+        r.arange = (start, stop, step)
+        r.length = length
+        so = getattr(stop, "shape_of", None)
+        if so is not None and len(args) == 1:
+            r.space = r.pos_of = getattr(so, "space", None)
+        r.arange_n = stop if len(args) == 1 else None
         return r
     if fn in ("zeros", "ones", "empty", "full", "zeros_like", "ones_like", "empty_like", "full_like"):
         shape = args[0] if args else kwargs.get("shape")
@@ -220,7 +222,17 @@ def call_numpy(it, name, mod, fn, args, kwargs, node, fr):
         a = as_arr(v)
         if a is not None and isinstance(reps, Seq) and len(reps.items) == 2 and is_pyconst(reps.items[1]) and pyval(reps.items[1]) == 1:
             return Arr(a.cols, 2)
-        if isinstance(v, (Val, Unk)) and isinstance(reps, Seq) and len(reps.items) == 2 and is_pyconst(reps.items[1]) \
+        if isinstance(v, Arr) and v.ndim == 2 and isinstance(reps, Seq) and len(reps.items) == 2 and is_pyconst(reps.items[1]) \
+                and pyval(reps.items[1]) == 1:
+            c = Arr(v.cols, 2, None)
+            c.tiled = (v, reps.items[0])
+            return c
+        if isinstance(v, Val) and isinstance(reps, Seq) and len(reps.items) == 2 and is_pyconst(reps.items[1]) \
+                and pyval(reps.items[1]) == 1:
+            c = Val(v.term)
+            c.tiled = (v, reps.items[0])
+            return c
+        if isinstance(v, (Unk,)) and isinstance(reps, Seq) and len(reps.items) == 2 and is_pyconst(reps.items[1]) \
                 and pyval(reps.items[1]) == 1:
             u = Unk(call("tile_rows", to_term(v)))
             u.tiled = v
@@ -642,6 +654,14 @@ def call_pandas(it, fn, args, kwargs, node, fr):
         u = opaque(it, "pandas.DataFrame", args, kwargs)
         return u
     if fn == "concat":
+        rep = getattr(args[0], "repeated", None) if args else None
+        if rep is not None and isinstance(rep[0], Frame):
+            f = rep[0].clone()
+            f.space = Space("repeat", parent=rep[0].space, how="repeat")
+            f.space.count = rep[1]
+            f.notes.append(("repeat", to_term(rep[1])))
+            f.labels_positional = False
+            return f
         parts = it.iter_items(args[0]) if args else None
         if parts is None:
             return opaque(it, "pandas.concat", args, kwargs)
